@@ -741,7 +741,7 @@ def run(ctx):
                      (sf and op in HANG_PRONE)
             if costly:
                 tag = (cls if cls and cls != 'gcdext' else 'small-field', op)
-                if m == 1 and seen_cls.get(tag, 0) < 1 and sum(seen_cls.values()) < 60:
+                if m == 1 and seen_cls.get(tag, 0) < 1 and sum(seen_cls.values()) < 30:
                     seen_cls[tag] = seen_cls.get(tag, 0) + 1
                 else:
                     skip(('known failing class %s' % cls) if cls and cls != 'gcdext' else
